@@ -68,12 +68,12 @@ theorem ont_sync_changes_only_if_verified {κ σ : Type} [BEq κ] (des : σ → 
     · rename_i u hu
       exact Or.inr ⟨by simpa using hc, by cases u; exact hu⟩
 
-/-- **History form.** Every stored header height was installed by a genesis operation (operator) or by a header
-that `verifyHeader` accepted in the state its operation met. -/
+/-- **History form.** Every stored header height was installed by a genesis operation that met a store without any
+header (operator, once only) or by a header that `verifyHeader` accepted in the state its operation met. -/
 theorem ont_stored_headers_all_verified {κ σ : Type} [BEq κ] [LawfulBEq κ] (des : σ → Bool)
     (ops : List (LCOnt.Op κ σ)) (h : Nat) (hm : h ∈ (LCOnt.run des LCOnt.St.empty ops).hdrs) :
     ∃ pre o post, ops = pre ++ o :: post ∧
-      ((∃ cfg, o = .genesis h cfg) ∨
+      ((∃ cfg, o = .genesis h cfg ∧ (LCOnt.run des LCOnt.St.empty pre).hdrs = []) ∨
        (∃ cfg bks sigs ver, o = .hdr h cfg bks sigs ver ∧
           LCOnt.verifyHeader des ver (LCOnt.run des LCOnt.St.empty pre) h bks sigs = .ok ())) := by
   rcases Poly.Proofs.LCOnt.run_trace des (·.hdrs) (Poly.Proofs.LCOnt.HdrStep des)
@@ -81,18 +81,18 @@ theorem ont_stored_headers_all_verified {κ σ : Type} [BEq κ] [LawfulBEq κ] (
   · simp [LCOnt.St.empty] at h0
   · refine ⟨pre, o, post, rfl, ?_⟩
     cases o with
-    | genesis h' cfg => cases hp; exact Or.inl ⟨cfg, rfl⟩
+    | genesis h' cfg => obtain ⟨rfl, he⟩ := hp; exact Or.inl ⟨cfg, rfl, he⟩
     | hdr h' cfg bks sigs ver => obtain ⟨rfl, hv⟩ := hp; exact Or.inr ⟨cfg, bks, sigs, ver, rfl, hv⟩
     | msg _ _ _ _ => exact hp.elim
     | dep _ _ _ _ => exact hp.elim
 
 /-- **ont_peers_only_from_verified.** Every recorded peer set (height, members) comes from the configuration
-carried by a genesis header (operator) or by a header at a height not stored before that `verifyHeader` accepted in
+carried by the genesis header (operator; accepted only while no header is stored) or by a header at a height not stored before that `verifyHeader` accepted in
 the state its operation met; the members recorded are exactly the configuration's ids (repeats collapsed). -/
 theorem ont_peers_only_from_verified {κ σ : Type} [BEq κ] [LawfulBEq κ] (des : σ → Bool)
     (ops : List (LCOnt.Op κ σ)) (e : Nat × List κ) (hm : e ∈ (LCOnt.run des LCOnt.St.empty ops).peers) :
     ∃ pre o post ps, ops = pre ++ o :: post ∧ e = (e.1, LCOnt.dedupKeys ps) ∧ (∀ k, k ∈ e.2 ↔ k ∈ ps) ∧
-      (o = .genesis e.1 (.peers ps) ∨
+      ((o = .genesis e.1 (.peers ps) ∧ (LCOnt.run des LCOnt.St.empty pre).hdrs = []) ∨
        (∃ bks sigs ver, o = .hdr e.1 (.peers ps) bks sigs ver ∧
           LCOnt.verifyHeader des ver (LCOnt.run des LCOnt.St.empty pre) e.1 bks sigs = .ok () ∧
           e.1 ∉ (LCOnt.run des LCOnt.St.empty pre).hdrs)) := by
@@ -105,8 +105,8 @@ theorem ont_peers_only_from_verified {κ σ : Type} [BEq κ] [LawfulBEq κ] (des
       | none => exact hp.elim
       | bad => exact hp.elim
       | peers ps =>
-        cases hp
-        exact ⟨pre, _, post, ps, rfl, rfl, fun k => Poly.Proofs.LCOnt.mem_dedupKeys k ps, Or.inl rfl⟩
+        obtain ⟨rfl, he⟩ := hp
+        exact ⟨pre, _, post, ps, rfl, rfl, fun k => Poly.Proofs.LCOnt.mem_dedupKeys k ps, Or.inl ⟨rfl, he⟩⟩
     | hdr h' cfg bks sigs ver =>
       cases cfg with
       | none => exact hp.elim
@@ -176,11 +176,12 @@ theorem neo_batch_all_checked {χ : Type} [BEq χ] [LawfulBEq χ] (t : LCNeo.Tra
     | none => exact ⟨fun _ => h2, fun h => absurd rfl h⟩
     | some t' => exact ⟨fun _ => h2, fun h => absurd rfl h⟩
 
-/-- Header sync never creates a tracked consensus, and genesis installs one only when none is tracked. -/
+/-- Header sync never creates a tracked consensus; genesis installs one only when none is tracked and is refused
+otherwise. -/
 theorem neo_install_only_by_first_genesis {χ : Type} [BEq χ] (st : Option (LCNeo.Tracked χ))
     (hs : List (LCNeo.Hdr χ)) (index : Nat) (next : χ) :
     (st = none → (LCNeo.syncBlockHeader st hs).1 = none) ∧
-    (∀ t, st = some t → (LCNeo.syncGenesis st index next).1 = some t) ∧
+    (∀ t, st = some t → LCNeo.syncGenesis st index next = (some t, .reject .initialized)) ∧
     (st = none → (LCNeo.syncGenesis st index next).1 = some ⟨index, next⟩) := by
   refine ⟨?_, ?_, ?_⟩
   · rintro rfl; rfl
